@@ -1,10 +1,10 @@
 #!/bin/bash
-# Run a property's check against a seeded change applied in a scratch worktree (never /repo).
-# usage: eval_seed.sh <seed-id e.g. C17-m2> [tier]   -> /verif/seeded/<id>/result.<tier>.txt
+# Run a check against a seeded change in a scratch worktree that follows /repo HEAD.                                       
 id=$1; tier=${2:-quick}; pid=${id%%-*}
-case "$id" in *-r3*) wt=/tmp/seed3/$pid;; *-r2*) wt=/tmp/seed2/$pid;; *) wt=/tmp/seed/$pid;; esac
+case "$id" in *-r4*) wt=/tmp/seed4/$pid;; *-r3*) wt=/tmp/seed3/$pid;; *-r2*) wt=/tmp/seed2/$pid;; *) wt=/tmp/seed/$pid;; esac
 cd /verif
 git -C $wt checkout -q -- . && git -C $wt clean -fdq -e target
+git -C $wt checkout -q --detach $(git -C /repo rev-parse HEAD)
 git -C $wt apply /verif/seeded/$id/patch.diff || { echo "patch does not apply" > seeded/$id/result.$tier.txt; exit 3; }
 start=$(date +%s)
 bin/check $pid --tier $tier ${ONLY:+--only $ONLY} --repo $wt > seeded/$id/result.$tier.txt 2>&1
